@@ -78,18 +78,50 @@ def _normalize(repo, f, **kw):
 def _norm_eval(fn_node, ev: str) -> str:
     """Reduce an evaluate body to a formula over L, R, T."""
     env = {}
-    ret = None
-    for st in fn_node.body:
-        if isinstance(st, ast.Expr) and isinstance(st.value, ast.Constant):
-            continue
+
+    def boolish(e) -> bool:
+        if isinstance(e, ast.UnaryOp) and isinstance(e.op, ast.Not):
+            return True
+        if isinstance(e, ast.Compare):
+            return True
+        if isinstance(e, ast.BoolOp):
+            return all(boolish(v) for v in e.values)
+        x = e.value if isinstance(e, ast.Await) else e
+        return isinstance(x, ast.Call) and callee_name(x) in ("is_truthy", "_eq", "_lt", "_contains", "isinstance", "bool")
+
+    def fold(body):
+        """the value a statement list returns, early returns folded into and/or/conditional"""
+        body = [st for st in body if not (isinstance(st, ast.Expr) and isinstance(st.value, ast.Constant))]
+        if not body:
+            return None
+        st = body[0]
         if isinstance(st, ast.Assign) and len(st.targets) == 1 and isinstance(st.targets[0], ast.Name):
             env[st.targets[0].id] = st.value
-        elif isinstance(st, ast.Return):
-            ret = st.value
-        else:
-            return f"<unsupported statement {text(st)[:40]}>"
+            return fold(body[1:])
+        if isinstance(st, ast.Return):
+            return st.value
+        if isinstance(st, ast.If):
+            a = fold(st.body)
+            b = fold(st.orelse) if st.orelse else fold(body[1:])
+            if a is None or b is None:
+                return None
+            t = st.test
+            neg = isinstance(t, ast.UnaryOp) and isinstance(t.op, ast.Not)
+            pos = t.operand if neg else t
+            # `if not X: return False; return Y` is `X and Y`, `if X: return True; return Y` is
+            # `X or Y` — for X that are booleans already (is_truthy(..), comparisons)
+            if boolish(pos) and boolish(b):
+                if neg and isinstance(a, ast.Constant) and a.value is False:
+                    return ast.BoolOp(op=ast.And(), values=[pos, b])
+                if not neg and isinstance(a, ast.Constant) and a.value is True:
+                    return ast.BoolOp(op=ast.Or(), values=[pos, b])
+            return ast.IfExp(test=t, body=a, orelse=b)
+        return None
+
+    ret = fold(list(fn_node.body))
     if ret is None:
-        return "<no return>"
+        bad = next((st for st in fn_node.body if not isinstance(st, (ast.Assign, ast.Return, ast.If)) and not (isinstance(st, ast.Expr) and isinstance(st.value, ast.Constant))), None)
+        return f"<unsupported statement {text(bad)[:40]}>" if bad is not None else "<no return>"
 
     class S(ast.NodeTransformer):
         def visit_Await(self, n):
